@@ -282,11 +282,11 @@ class SRange:
         raise Unsupported("non-positive range step with symbolic bounds")
     span = stop - start
     if cs == 1:
-      self.n = sym.smax(span, 0)
+      self.n = span if sym.prove(span >= 0) else sym.smax(span, 0)
     else:
       # ceil(span / step) for span > 0
       q = (span + step - 1) // step
-      self.n = sym.smax(q, 0)
+      self.n = q if sym.prove(q >= 0) else sym.smax(q, 0)
     if not isinstance(self.n, sym.Sym):
       self.n = SInt(z3.IntVal(self.n))
 
@@ -294,7 +294,19 @@ class SRange:
     return self.n
 
   def _pyvc_at(self, k):
-    return self.start + k * self.step
+    v = self.start + k * self.step
+    c = cur()
+    kz = sym._as_int_z(k)
+    key = ("range_at", id(self), kz.get_id())
+    if key not in c.ghost and isinstance(v, sym.Sym):
+      c.ghost[key] = True
+      kk = k if isinstance(k, sym.Sym) else SInt(z3.IntVal(k))
+      inr = sym.sand(kk >= 0, kk < self.n, self.step > 0)
+      c.fact(sym.implies(inr, sym.sand(v >= self.start, v < self.stop)),
+             "range: every element lies in [start, stop)")
+      c.fact(sym.implies(inr, (kk + 1) * self.step <= self.n * self.step),
+             "Lean Spec.mul_le_mul_right: k+1 <= n => (k+1)*s <= n*s for s >= 0")
+    return v
 
   def __iter__(self):
     raise Unsupported("iteration over symbolic range reached CPython")
@@ -328,6 +340,8 @@ def b_int(x=0, *a):
   if isinstance(x, SBool):
     return x.to_int()
   if isinstance(x, sym.SReal):
+    if z3.is_app(x.z) and x.z.decl().kind() == z3.Z3_OP_TO_REAL:
+      return SInt(x.z.arg(0))
     # truncation toward zero
     fl = z3.ToInt(x.z)
     return SInt(z3.If(x.z >= 0, fl, z3.If(z3.ToReal(fl) == x.z, fl, fl + 1)))
